@@ -46,7 +46,9 @@ def make_project(rng, i):
     files["src/bait_b%d.py" % i] = (
         "import re as pat\n\n\ndef scan_b(lines, rx, lg):\n    out = []\n    for line in lines:\n        if rx.match(line):\n            out.append(line)\n        lg.write(line)\n"
         "    return out\n\n\ndef by_alias_b(lines):\n    return [line for line in lines if pat.match(\"y\", line)]\n")
-    files[".thailint.yaml"] = "dry:\n  enabled: true\n  min_duplicate_lines: 3\nfile-placement:\n  global_deny:\n    - pattern: \".*third.*\\\\.py$\"\n      reason: \"no third\"\n"
+    files[".thailint.yaml"] = ("magic-numbers:\n  allowed_numbers: [0, 1]\n  max_small_integer: 3\n  typescript:\n    allowed_numbers: [0, 1, 2, 37, 4217, 7331]\n  rust:\n    max_small_integer: 20\n"
+                               "nesting:\n  max_nesting_depth: 3\n  python:\n    max_nesting_depth: 5\n  rust:\n    max_nesting_depth: 2\n"
+                               "srp:\n  max_methods: 2\n  typescript:\n    max_methods: 9\n    max_loc: 500\n") + "dry:\n  enabled: true\n  min_duplicate_lines: 3\nfile-placement:\n  global_deny:\n    - pattern: \".*third.*\\\\.py$\"\n      reason: \"no third\"\n"
     return files
 
 
